@@ -35,8 +35,14 @@ func genLit(r *rand.Rand, maxLen int) string {
 }
 
 func fixLit(s string) string {
-	for _, op := range []string{"{{", "{%", "{#"} {
-		s = strings.ReplaceAll(s, op, "{ "+op[1:])
+	for changed := true; changed; {
+		changed = false
+		for _, op := range []string{"{{", "{%", "{#"} {
+			if strings.Contains(s, op) {
+				s = strings.ReplaceAll(s, op, "{ "+op[1:])
+				changed = true
+			}
+		}
 	}
 	for strings.HasSuffix(s, "{") || strings.HasSuffix(s, "\\") {
 		s = s[:len(s)-1] + "."
